@@ -38,7 +38,14 @@ class QueryJudge:
         self.check_tree = check_tree
         self.expected = expected
 
+    attributed = None      # (case id, configuration) pairs whose deviation was attributed to a known cache finding
+
     def known(self, fid):
+        if self.attributed is None:
+            self.attributed = set()
+        return self._known(fid)
+
+    def _known(self, fid):
         f = self.findings.get(fid)
         if f is None:
             return False
@@ -133,6 +140,7 @@ class QueryJudge:
                     reproduced = (m2 is not None and sorted(set(out[1])) == sorted(set(m2))) or \
                                  (m2 is None and cfg['nonuniform'])
                     if reproduced and not mentions_flatten(case) and self.known('C05-F1'):
+                        self.attributed.add((case['id'], cfg_name))
                         continue
                 if cfg_name.startswith('on') and off_name in res['impl'] and mentions_flatten(case) and \
                         all(canon(o[1], case, self.ordered) == want for o in res['impl'][off_name]['outs']
